@@ -1,6 +1,6 @@
 From RsdnsModel Require Import Base Client Timed.
 From RsdnsModel.Spec Require Import Retry.
-From RsdnsModel.Proofs Require Import ClientProofs TimedProofs.
+From RsdnsModel.Proofs Require Import ClientProofs TimedProofs TimedUntimed.
 From RsdnsModel.Properties Require Import C15.
 Open Scope N_scope.
 Check (C15_armed_within_lifetime : forall elapsed lifetime qt attempt tau,
@@ -25,7 +25,7 @@ Check (C15_async_durations_are_configured : forall smol cfg_lifetime cfg_qt,
   async_call_duration smol cfg_lifetime cfg_qt = cfg_lifetime /\ async_attempt_duration smol cfg_lifetime cfg_qt = cfg_qt).
 Check (C15_exchange_refines_spec : forall std smol q lifetime qt queue lo,
   qt_pos qt -> 0 < lifetime -> sorted_from lo queue ->
-  exists rest, exchange_of std smol q lifetime qt zero_jit queue =
+  exists rest, exchange_of std smol q lifetime qt zero_jit zero_jit queue =
     (outcome_of (spec_udp (good_of std q) (exchange_fuel lifetime) (tq_start q) lifetime qt queue), rest) /\
     exists pre, queue = pre ++ rest).
 Check (C15_schedule_nth : forall q bound fuel s k x,
@@ -38,23 +38,36 @@ Check (C15_only_answers_matter : forall good fuel start lifetime qt arrs,
 Check (C15_std_is_async : forall good acc, (forall d, acc d = Ok (good d)) ->
   forall start lifetime qt smol fuel arrs now,
   qt_pos qt -> start <= now -> now < start + lifetime -> (N.to_nat (start + lifetime - now) < fuel)%nat ->
-  std_udp_exchange acc start lifetime qt (fun _ => 0) fuel arrs now =
+  std_udp_exchange acc start lifetime qt (fun _ => 0) (fun _ => 0) fuel arrs now =
   async_udp_exchange acc start lifetime qt (fun _ => 0) smol fuel arrs now).
-Check (C15_retries_with_slack : forall std smol q lifetime qt jit eps queue s r t rest,
-  (forall x, jit x <= eps) -> qt_pos qt -> 0 < lifetime ->
-  exchange_of std smol q lifetime qt jit queue = (s, r, t, rest) ->
+Check (C15_retries_with_slack : forall std smol q lifetime qt jit proc eps queue s r t rest,
+  (forall x, jit x <= eps) -> (forall x, proc x <= eps) -> qt_pos qt -> 0 < lifetime ->
+  exchange_of std smol q lifetime qt jit proc queue = (s, r, t, rest) ->
   tq_start q <= t /\ t <= tq_start q + lifetime + eps /\
   match r with Ok (d, fl) => good_of std q d = Some fl | Err e => e = Timeout | _ => False end /\
   (exists s', s = tq_start q :: s' /\ gaps (tq_start q) lifetime qt eps (tq_start q) s') /\
   Forall (fun x => tq_start q <= x /\ x <= t) s /\
   (r = Err Timeout -> tq_start q + lifetime <= last s (tq_start q) + tmo lifetime qt + eps)).
-Check (C15_call_ends_by_deadline : forall std smol q lifetime qt jit eps buf_len strategy arrs srv sends ev r t,
-  (forall x, jit x <= eps) -> qt_pos qt -> 0 < lifetime ->
-  client_query_timed std smol q lifetime qt jit buf_len strategy arrs srv = (sends, ev, r, t) ->
+Check (C15_call_ends_by_deadline : forall std smol q lifetime qt jit proc eps buf_len strategy arrs srv sends ev r t,
+  (forall x, jit x <= eps) -> (forall x, proc x <= eps) -> qt_pos qt -> 0 < lifetime ->
+  client_query_timed std smol q lifetime qt jit proc buf_len strategy arrs srv = (sends, ev, r, t) ->
   tq_start q <= t /\ t <= tq_start q + lifetime + eps /\ match r with Ok _ | Err _ => True | _ => False end).
-Check (C15_example : (forall std, fst (exchange_of std false ex_q 1050 (Some 300) zero_jit ex_junk) = ([1000; 1300; 1600; 1900], Err Timeout, 2050)) /\
-  (forall std, fst (exchange_of std false ex_q 1050 (Some 300) zero_jit (ex_junk ++ [(1650, ex_resp x12 x34 "A")]))
+Check (C15_example : (forall std, fst (exchange_of std false ex_q 1050 (Some 300) zero_jit zero_jit ex_junk) = ([1000; 1300; 1600; 1900], Err Timeout, 2050)) /\
+  (forall std, fst (exchange_of std false ex_q 1050 (Some 300) zero_jit zero_jit (ex_junk ++ [(1650, ex_resp x12 x34 "A")]))
      = ([1000; 1300; 1600], Ok (ex_resp x12 x34 "A", 33152), 1650)) /\
-  (forall std, fst (exchange_of std false ex_q 1050 None zero_jit ex_junk) = ([1000], Err Timeout, 2050)) /\
+  (forall std, fst (exchange_of std false ex_q 1050 None zero_jit zero_jit ex_junk) = ([1000], Err Timeout, 2050)) /\
   sorted_from 0 (ex_junk ++ [(1650, ex_resp x12 x34 "A")]) /\ qt_pos (Some 300)).
-Print Assumptions C15_armed_within_lifetime. Print Assumptions C15_deadline. Print Assumptions C15_attempt_over_retries. Print Assumptions C15_armed_before_call_deadline. Print Assumptions C15_async_durations_are_configured. Print Assumptions C15_exchange_refines_spec. Print Assumptions C15_schedule_nth. Print Assumptions C15_schedule_complete. Print Assumptions C15_only_answers_matter. Print Assumptions C15_std_is_async. Print Assumptions C15_retries_with_slack. Print Assumptions C15_call_ends_by_deadline. Print Assumptions C15_example.
+Check (C15_example_cpu_time : fst (exchange_of true false ex_q 1050 (Some 300) zero_jit (fun _ => 5)
+         [(1010, [x00; x01; x02]%byte); (1299, ex_resp x12 x35 "a")]) = ([1000; 1304; 1604; 1904], Err Timeout, 2050)).
+Check (C15_in_time_is_untimed : forall std smol q lifetime qt buf strategy arrs srv lo te sends ev r t,
+  qt_pos qt -> 0 < lifetime -> sorted_from lo arrs ->
+  tp_accept srv = Some 0 -> early (tq_start q + lifetime) (tp_bytes srv) -> tp_eof srv = Some te -> te < tq_start q + lifetime ->
+  client_query_timed std smol q lifetime qt zero_jit zero_jit buf strategy arrs srv = (sends, ev, r, t) ->
+  (ev, r) = client_query std strategy (tq_id q) (tq_name q) (tq_type q) (tq_class q) buf
+              (map snd (filter (early_arr (tq_start q + lifetime)) arrs)) [map snd (tp_bytes srv)] /\
+  t <= tq_start q + lifetime).
+Check (C15_in_time_example : forall std, client_query_timed std false ex_q 1050 (Some 300) zero_jit zero_jit 512 0
+    [(1310, [x12; x34; x83; x80; x00; x01; x00; x00; x00; x00; x00; x00; x01; "a"; x00; x00; x01; x00; x01]%byte)]
+    {| tp_accept := Some 0; tp_bytes := [(1320, x00); (1320, x03); (1320, xaa); (1400, xbb); (1400, xcc)]; tp_eof := Some 1400 |}
+  = ([1000; 1300], [EvUdpExchange; EvTcpExchange], Ok [xaa; xbb; xcc], 1400)).
+Print Assumptions C15_armed_within_lifetime. Print Assumptions C15_deadline. Print Assumptions C15_attempt_over_retries. Print Assumptions C15_armed_before_call_deadline. Print Assumptions C15_async_durations_are_configured. Print Assumptions C15_exchange_refines_spec. Print Assumptions C15_schedule_nth. Print Assumptions C15_schedule_complete. Print Assumptions C15_only_answers_matter. Print Assumptions C15_std_is_async. Print Assumptions C15_retries_with_slack. Print Assumptions C15_call_ends_by_deadline. Print Assumptions C15_example. Print Assumptions C15_example_cpu_time. Print Assumptions C15_in_time_is_untimed. Print Assumptions C15_in_time_example.
